@@ -19,33 +19,32 @@ def ns_tie(kinds, quick=4000, thorough=200000, extra=None, name='TIE-C ns'):
 
 
 PROPS['C22'] = dict(
-    target='Props/C22', theorems=['C22_send', 'C22_send_statement', 'C22_send_all_statement', 'C22_refuted_sendall_asset'],
+    target='Props/C22', theorems=['C22_send', 'C22_balances', 'C22_send_statement', 'C22_send_all_statement'],
     ties=[ns_tie(['C22']), ns_tie(['C22'], quick=2500, thorough=100000, extra=['-profile', 'single'], name='TIE-C ns single-send')],
     rule=NS_RULE, trusted=NS_TRUST, level_note=NS_NOTE,
     explanation='C22_send (all programs, variables, stores; structural induction over sources and destinations, no depth bound): per send statement the postings are non-negative, all in the asset the '
                 'statement\'s monetary evaluates to, sum to at most the amount and exactly to it when the destination has no `kept` (allotments: via C24 allocate_sum); send [A *]: sum = total of the funding the '
-                'sources provided. REFUTED (C22_refuted_sendall_asset, known finding KF-C22-sendall-foreign-overdraft-asset): `send [A *]` with an overdraft clause in another asset emits postings in that asset; '
-                'the theorem therefore states the asset of send-all postings as the funding\'s asset, equal to A when no source has an `overdraft up to` clause. NOT proved: "tracked balances = initial + postings - save" '
-                '(checked on every run by the monitor [ns-balance-drift] on the machine\'s own Balances map and by model = implementation on the before/after balances).',
+                'sources provided, in asset A. C22_balances: every tracked (account, asset) pair except world ends at initial (= the store balance) + effect of all postings - what `save` set aside. '
+                'The model follows the repaired code (fixes/03: send [A *] with an overdraft clause in another asset is an invalid-script error; former known finding KF-C22-sendall-foreign-overdraft-asset, now "fixed").',
     technique='Coq proof by mutual structural induction over the Numscript AST (sources, destinations) about an executable big-step semantics + differential run against compiler.Compile + vm.Machine + independent monitors',
-    level_text='Unbounded theorem about Machine/Sem.v: for every program/variables/store, each send statement yields non-negative postings in the statement\'s asset summing exactly to the sent amount when nothing is `kept` '
-               '(≤ otherwise; send-all: to the funds the sources provided). The asset claim for `send [A *]` is refuted on the unchanged code (witness + known finding) and proved under the hypothesis that no source '
-               'has an `overdraft up to` clause. Tie: thousands of generated programs through the real compiler and VM equal the extracted model; monitors recompute sums/balances from the implementation output only.')
+    level_text='Unbounded theorems about Machine/Sem.v: for every program/variables/store, each send statement yields non-negative postings in the statement\'s asset summing exactly to the sent amount when nothing is `kept` '
+               '(≤ otherwise; send-all: to the funds the sources provided), and the tracked balances equal initial + postings − save. Tie: thousands of generated programs through the real compiler and VM equal the '
+               'extracted model; monitors recompute sums/balances from the implementation output only.')
 
 PROPS['C28'] = dict(
-    target='Props/C28', theorems=['C28_partial', 'C28_literal_asset', 'C28_variables_validated', 'C28_refuted_literal'],
+    target='Props/C28', theorems=['C28_wellformed', 'C28_environment_valid'],
     ties=[ns_tie(['C28'], quick=3000, extra=['-profile', 'edge'], name='TIE-C ns lexer-edge'),
           dict(name='TIE-C nslex', vh='nslex', model='nslex', n=dict(quick=20000, thorough=1000000), kinds=['C28'])],
     rule=NS_RULE + '; profile edge: half of the statements use literal assets at the edge of the lexer rule (USD//2, 12A, A/1234567, /, 19-letter names, 9, U/); nslex: random strings over [AZaz09_-:/ .U1] + fixed edge cases through '
-         'accounts.ValidateAddress, assets.IsValid and compiler.Compile("send [S 1] ...") vs Lex.valid_address / valid_asset / lexer_asset',
+         'accounts.ValidateAddress, assets.IsValid and compiler.Compile("send [S 1] ...") vs Lex.valid_address / valid_asset / (lexer_asset && valid_asset)',
     trusted=NS_TRUST, level_note=NS_NOTE,
-    explanation='Machine-script path only (postings path / import / interpreter are not covered here). C28_partial: every posting of a successful run has amount >= 0 and exactly the asset its statement\'s monetary evaluates to; '
-                'C28_literal_asset: for a literal monetary that is the literal text; C28_variables_validated: plain variables passed SetVarsFromJSON validation. REFUTED (C28_refuted_literal, known finding KF-C28-literal-asset, suspect S-28 '
-                'confirmed on the real code): a literal asset accepted by the lexer rule [A-Z/0-9]+ but rejected by the asset pattern reaches the result. Address validity of posting sources/destinations is NOT a theorem '
-                '(literals are valid by the lexer rule = the address pattern, variables/meta by validation): it is checked by the monitor, which re-validates every posting of every successful run with the real Postings.Validate.',
-    technique='Coq proof (corollary of the C22 induction) + refutation witness by vm_compute replayed on the real compiler/VM + recognisers tied to the real regexps',
-    level_text='Partial: proved that script postings carry a non-negative amount and the statement\'s asset verbatim; the full statement is refuted for literal assets (witness + replay). Recognisers for address/asset patterns '
-               'and the ASSET lexer rule are Coq functions compared with Go regexp / the real compiler on 20 000 strings per run.')
+    explanation='Machine-script path only (postings path / import / interpreter are not covered here). C28_wellformed: every posting of every successful run has source and destination matching the address pattern '
+                '(literals by the lexer recogniser, variables and meta() values by validation), an asset matching the asset pattern and a non-negative amount; C28_environment_valid is the invariant behind it '
+                '(declared variables hold validated values of their type). The model follows the repaired code (fixes/02: literal assets are validated at compile time; former known finding KF-C28-literal-asset / suspect S-28, now "fixed"). '
+                'The monitor re-validates every posting of every successful run with the real Postings.Validate.',
+    technique='Coq proof (invariant of variable resolution + the C22 induction generalised over an account predicate) + recognisers tied to the real regexps and the real compiler',
+    level_text='Unbounded theorem about Machine/Sem.v: all postings a script produces are well formed (addresses, asset, amount). Recognisers for the address/asset patterns and the ASSET lexer rule are Coq functions '
+               'compared with Go regexp / the real compiler on 20 000 strings per run.')
 
 PROPS['C26'] = dict(
     target='Props/C26', theorems=['C26_zero_postings_irrelevant', 'C26_machine_deterministic'],
@@ -62,29 +61,40 @@ PROPS['C26'] = dict(
                '(no model of the third-party interpreter). Known disagreements on `kept` are reported as known findings.')
 
 PROPS['C27'] = dict(
-    target='Props/C27', theorems=['C27_no_panic_partial', 'C27_statements_no_panic', 'C27_no_partial', 'C27_refuted_nil_balance'],
+    target='Props/C27', theorems=['C27_no_panic', 'C27_statements_no_panic', 'C27_no_partial'],
     ties=[ns_tie(['C27'], quick=3000, name='TIE-C ns'),
+          ns_tie(['C27'], quick=1500, thorough=50000, extra=['-profile', 'nilbal'], name='TIE-C ns several balance() variables'),
           dict(name='TIE-C ns adapters (no partial result)', vh='ns', model='ns', n=dict(quick=1500, thorough=50000), args=dict(all=['-c26', '1']), kinds=['C27']),
           dict(name='EXPLORE nsfront (unmodelled ANTLR front end)', vh='nsfront', model=None, n=dict(quick=6000, thorough=600000), kinds=['C27'])],
-    rule=NS_RULE + '; nsfront (exploration of the unmodelled front end, labelled as such): per run 1/3 byte/token-level mutants of generated programs, 1/3 random token sequences, 1/3 arbitrary byte strings '
-         'into compiler.Compile and, when they compile, into the machine; only panics and >5 s hangs are reported; the adapters tie also checks that an error never comes with a non-nil result',
+    rule=NS_RULE + '; profile nilbal: every program with a balance() variable gets a second one, mostly on the same account; nsfront (exploration of the unmodelled front end, labelled as such): per run 1/3 byte/token-level mutants of generated programs, '
+         '1/3 random token sequences, 1/3 arbitrary byte strings into compiler.Compile and, when they compile, into the machine; only panics and >5 s hangs are reported; the adapters tie also checks that an error never comes with a non-nil result',
     trusted=NS_TRUST, level_note=NS_NOTE,
-    explanation='Sem.run is a total function with an explicit Panic outcome (nil *MonetaryInt dereferences). Proved: programs without balance() variables never panic, for all variables/balances/metadata (C27_no_panic_partial), and '
-                'no statement sequence panics in an environment without nil amounts (C27_statements_no_panic); an error outcome carries no postings (C27_no_partial; on the Go side the monitor checks result == nil on error for both adapters). '
-                'REFUTED (C27_refuted_nil_balance, known finding KF-C27-nil-balance-panic, replayed on the real VM): two balance() variables on one account leave a nil amount and the VM panics. '
+    explanation='Sem.run is a total function with an explicit Panic outcome where Go would dereference a nil *MonetaryInt. C27_no_panic: NO program, variable assignment or store makes it panic (invariant: after ResolveResources/ResolveBalances '
+                'no variable holds a nil amount; then no-Panic by mutual structural induction); C27_no_partial: an error outcome carries no postings (on the Go side the monitor checks result == nil on error for both adapters). '
+                'The model follows the repaired code (fixes/01: every balance() variable is assigned; former known finding KF-C27-nil-balance-panic, now "fixed"). '
                 'Gaps: panics of the bytecode VM that an AST-level semantics cannot express (pop[T] type assertion, BUMP index, "stack not empty") are covered only by the differential run under recover(), not by a theorem (no Vm.v/Compile.v); '
                 'the byte-string front end is exploration only.',
-    technique='Coq proof (no-Panic by mutual structural induction over the AST) + refutation witness + differential run under recover()/timeout + front-end exploration',
-    level_text='Partial proof from the AST down: no panic for every program without balance() variables (any inputs) and for every statement sequence once variables hold no nil amount; full statement refuted by a 2-line script that '
-               'panics the real VM (known finding). Stack-discipline panics of the bytecode VM are only tested (thousands of generated programs per run under recover()), and the ANTLR front end is explored with mutants/byte strings.')
+    technique='Coq proof (environment invariant + no-Panic by mutual structural induction over the AST) + differential run under recover()/timeout + front-end exploration',
+    level_text='Full at AST level: for every program and every input the semantics never panics and an error carries no result. Stack-discipline panics of the bytecode VM are only tested (thousands of generated programs per run '
+               'under recover()), and the ANTLR front end is explored with mutants/byte strings.')
 
 PROPS['C23'] = dict(
-    target='Props/C23', theorems=['C23_partial_withdraw_all', 'C23_untracked_is_error'],
+    target='Props/C23', theorems=['C23_bound', 'C23_no_overdraft', 'C23_withdraw_all', 'C23_untracked_is_error'],
     ties=[ns_tie(['C23'], quick=5000, name='TIE-C ns')],
     rule=NS_RULE + '; monitor: for every bounded source occurrence (account value, asset) that is not world and not declared unbounded anywhere in the program: initial + net postings >= min(initial, -max declared bound)',
     trusted=NS_TRUST, level_note=NS_NOTE,
-    explanation='PARTIAL. Proved: the withdrawAll primitive (OP_TAKE_ALL) hands out exactly max(0, balance + bound) as one part and leaves the tracked balance >= min(balance, -bound); an untracked bounded source is an error. '
-                'The whole-program invariant (preservation through repay/credit/TAKE_ALWAYS on other accounts, and tracked = initial + postings - save) is NOT yet a theorem: it is checked on every generated program by the '
-                'independent monitor [ns-overdrawn] and by model = implementation on the tracked balances. No counterexample in >10^5 programs.',
-    technique='Coq lemma on the balance primitive + differential run + independent balance-bound monitor',
-    level_text='Partial: machine-checked bound for the primitive all bounded sources use; the program-level statement is validated by correspondence and monitor only (stated gap).')
+    explanation='C23_bound (all programs, variables, stores): for every tracked (account, asset) pair whose account is not world, if every `overdraft up to` clause on that account evaluates to at most B and no source declared unbounded '
+                'evaluates to that account, then initial + effect of ALL postings of the run >= min(initial, -B) (initial = store balance, C22_balances); proof: a lower-bound invariant through withdrawAll / TAKE_ALWAYS on other accounts / repay / credit, '
+                'with `save` accounted for via C22_balances. Tracked pairs are the bounded sources x statement asset (NeededBalances) and balance() pairs; an untracked bounded source cannot be withdrawn (C23_untracked_is_error). '
+                'C23_no_overdraft: the syntactic instance without any overdraft clause.',
+    technique='Coq proof (lower-bound invariant by mutual structural induction + the C22 balance equation) + differential run + independent balance-bound monitor',
+    level_text='Unbounded theorem about Machine/Sem.v: no bounded non-world source ends below min(initial, −bound), the balance being initial + postings of the run. Tied to the real compiler/VM by the differential run; '
+               'the monitor recomputes the bound from the implementation output only.')
+
+# C25 (claimed in 10-ledger.py): machine side added here -- theorem + tie through the real TxToScriptData, compiler and VM
+if 'C25' in PROPS:
+    PROPS['C25']['theorems'] = PROPS['C25']['theorems'] + ['C25_machine_script']
+    PROPS['C25']['ties'] = PROPS['C25']['ties'] + [dict(name='TIE-C nstx (TxToScriptData -> compiler -> VM)', vh='nstx', model='nstx', n=dict(quick=4000, thorough=200000), kinds=['C25'])]
+    PROPS['C25']['explanation'] = PROPS['C25']['explanation'] + (' Machine side (C25_machine_script, Machine/TxScript.v): Sem.run on the script TxToScriptData generates yields exactly the submitted postings iff '
+        'Core.feasible succeeds and insufficient funds otherwise, for any injective variable naming; tie nstx: 1-8 postings over 5 accounts incl. world x 4 assets (USD_X is not lexable as a literal: variables only), zero and >2^64 amounts, '
+        'negative balances, 20% force, through the REAL TxToScriptData + compiler + VM vs the extracted model; monitor: independent in-order walk.')
